@@ -165,6 +165,10 @@ fn directory_case(ctx : &mut Ctx, rng : &mut Rng, case : u64)
         sys.user_write(&p, &random_bytes(rng, len), false);
         files.push(p);
     }
+    // sub-directories with nothing beneath them: their names are contained names too
+    let empties = ["tree/cache", "tree/a/empty", "tree/zz"];
+    let n_empty = rng.below(3);
+    for e in empties.iter().take(n_empty) { sys.user_mkdirs(e); }
     let hash = |sys : &VSys| -> Option<String> { TicketFactory::from_directory(sys, "tree").ok().map(|mut f| f.result().human_readable()) };
     let h0 = match hash(&sys) { Some(h) => h, None => { ctx.violation(case, "directory-hash-failed", "hashing a directory tree failed".to_string(), J::Null); return; } };
     ctx.tally.eval(mix(fnv_str(&h0), case), true);
@@ -175,8 +179,30 @@ fn directory_case(ctx : &mut Ctx, rng : &mut Rng, case : u64)
     }
     let victim = files[rng.below(files.len())].clone();
     let original = sys.read_file(&victim).unwrap();
-    let (what, undo) : (String, Box<dyn Fn(&VSys)>) = match rng.below(4)
+    let (what, undo) : (String, Box<dyn Fn(&VSys)>) = match if n_empty > 0 { rng.below(7) } else { rng.below(4) }
     {
+        4 =>
+        {
+            // rename an empty sub-directory so that it keeps its rank among its siblings
+            let old = empties[rng.below(n_empty)].to_string();
+            let renamed = format!("{}x", old);
+            sys.user_remove(&old);
+            sys.user_mkdirs(&renamed);
+            let (o, r) = (old.clone(), renamed.clone());
+            (format!("empty directory {} renamed to {}", old, renamed), Box::new(move |s : &VSys| { s.user_remove(&r); s.user_mkdirs(&o); }))
+        },
+        5 =>
+        {
+            sys.user_mkdirs("tree/new_empty_dir");
+            ("empty directory tree/new_empty_dir added".to_string(), Box::new(move |s : &VSys| s.user_remove("tree/new_empty_dir")))
+        },
+        6 =>
+        {
+            let old = empties[rng.below(n_empty)].to_string();
+            sys.user_remove(&old);
+            let o = old.clone();
+            (format!("empty directory {} removed", old), Box::new(move |s : &VSys| s.user_mkdirs(&o)))
+        },
         0 =>
         {
             let mut changed = original.clone();
@@ -277,7 +303,7 @@ pub fn drive()
 
     // strings: wrong lengths, foreign characters, overflow
     let alphabet : Vec<char> = "0123456789abcdefghijklmnopqrstuvwxyzABCDEFGHIJKLMNOPQRSTUVWXYZ".chars().collect();
-    let foreign : Vec<char> = "!\"#$%&'()*+,-./:;<=>?@[\\]^_`{|}~ \t\né日\u{0}".chars().collect();
+    let foreign : Vec<char> = "!\"#$%&'()*+,-./:;<=>?@[\\]^_`{|}~ \t\né日\u{0}\u{141}\u{131}\u{161}\u{3431}".chars().collect();
     if params.shard == 0
     {
         for len in 0..=60usize
@@ -305,7 +331,19 @@ pub fn drive()
             0 => { let i = rng.below(43); chars[i] = foreign[rng.below(foreign.len())]; "one-foreign-character" },
             1 => { for c in chars[38..].iter_mut() { *c = alphabet[55 + rng.below(7)]; } "large-value" },
             2 => { chars[42] = alphabet[rng.below(62)]; "random-43" },
-            _ => { let i = rng.below(43); chars[i] = 'é'; chars.pop(); "multibyte-43-bytes" },
+            _ =>
+            {
+                // one multi-byte character, the rest ASCII, 43 BYTES in total; the character is drawn so that its code
+                // point often ends in the byte of an ASCII letter or digit (U+0141, U+3431, U+1F431 ...)
+                let low = alphabet[rng.below(62)] as u32;
+                let candidates = [0x00e9u32, 0x0100 + low, 0x0400 + low, 0x3400 + low, 0x1f400 + low, 0x00c0 + (low & 0x3f)];
+                let c = std::char::from_u32(candidates[rng.below(candidates.len())]).unwrap_or('é');
+                let keep = 43 - c.len_utf8();
+                chars.truncate(keep);
+                let i = rng.below(keep + 1);
+                chars.insert(i, c);
+                "multibyte-43-bytes"
+            },
         };
         let s : String = chars.into_iter().collect();
         codec_string_case(&mut ctx, 50_000 + k, &s, class);
